@@ -107,7 +107,8 @@ def run_streams(chk, quick, n=None):
                     chk.violation("implementation crashed or was inconsistent (%s)" % ci[0], rep)
                     bad = True
                     break
-                if ci[0] == "PANIC" and not asm2_gen.panic_class(p):
+                if ci[0] == "PANIC":
+                    # F48/F61/F62 are fixed (checked position arithmetic): no panic class is tolerated on this fragment
                     chk.violation("implementation panicked", rep)
                     bad = True
                     break
@@ -135,9 +136,8 @@ def run_streams(chk, quick, n=None):
             anyok = anyok or on[0] == "OK" or off[0] == "OK"
             if sig(on) != sig(off):
                 off2 = res.get((2, False))
-                if (b == 1 and F70_CLASS in known_classes and on[0] in ("OK", "PANIC") and (on[0] == "PANIC" or on[2] == 1) and off[0] == "ERR"
-                        and off2 is not None and sig(off2) == sig(on) and (off2[0] == "PANIC" or off2[2] == 2)):
-                    # (a known panic class of the output stage reached one pass earlier is the same situation)
+                if (b == 1 and F70_CLASS in known_classes and on[0] == "OK" and on[2] == 1 and off[0] == "ERR"
+                        and off2 is not None and sig(off2) == sig(on) and off2[2] == 2):
                     dist["f70"] += 1
                     chk.known("F70", F70_TEXT)
                     continue
